@@ -656,6 +656,6 @@ META = {
     "bounds": {"quick": "K=16 keys, P in 0..100 (integer), n in 0..17; tables on 4 models x 24 tree shapes; 2 models x 2 rounds (merge, add data, merge again); real comparators on 3 models x 3 keys x 8 policies and x 4 keys x 3 policies",
                "thorough": "K=16 and 24 with cvc5 cross-check; tables on 5 models x 120 tree shapes; 4 models with list wrapping; 3 models x 2 rounds; real comparators on 3 models x 4 keys"},
     "outside_claim": ["non-integer percent strings (percent_33.3)", "key universes larger than K", "more than 5 models per table", "models with zero keys (division by zero in the percent comparator)"],
-    "assumptions": ["models have at least one key", "the table comparator identifies a model by its marker key; merged and root models are dissimilar to everything",
+    "assumptions": ["models have at least one key", "the table comparator identifies a model by its marker keys and answers with one solver bit per unordered pair of marker sets (also for models produced by an earlier merge); root models are dissimilar to everything",
                     "spec for percent: 100*|a&b| >= P*|a|b| over the integers; default thresholds are 70% and 10 as documented"],
 }
